@@ -9,7 +9,7 @@ the value. The model returns the pair (value, rest) too, but drops the `Result` 
 Not translated, given their model meaning (trusted, DESIGN §13): `parse_int` (`str::from_utf8` + `str::parse` on the
 digit strings produced by `read_while(is_ascii_digit)`) and `LocalTimeType::new`.
 -/
-import TzVerif.Generated.Src
+import TzVerif.SrcBase
 import TzVerif.Model.TzString
 import TzVerif.Proofs.SrcEqRule
 
